@@ -581,10 +581,11 @@ struct FileWriterMatrix : Family {
 			std::string what;
 			ctx.schedNote(std::to_string(flags) + (state == 0 ? "n" : state == 1 ? "e" : state == 2 ? "f" : "l"));
 			Out o = callLib(plan, [&] {
-				FW w = (flags == static_cast<unsigned>(FW::OpenMode::Default) && (op.u("n2") & 1)) ? FW(path) : FW(path, static_cast<FW::OpenMode>(flags)); // default argument
-				w.Write(d1.data(), d1.size());
-				if (op.u("n1") & 1) { FW moved(std::move(w)); moved.Write(d2.data(), d2.size()); } // the writer is moved between the two writes
-				else w.Write(d2.data(), d2.size());
+				auto w = (flags == static_cast<unsigned>(FW::OpenMode::Default) && (op.u("n2") & 1)) ? std::make_unique<FW>(path) : std::make_unique<FW>(path, static_cast<FW::OpenMode>(flags)); // default argument
+				w->Write(d1.data(), d1.size());
+				// the writer is moved between the two writes and the moved-from object is destroyed before the second one
+				if (op.u("n1") & 1) { auto moved = std::make_unique<FW>(std::move(*w)); w.reset(); moved->Write(d2.data(), d2.size()); }
+				else w->Write(d2.data(), d2.size());
 			}, &what);
 			std::string desc = "FileWriter(" + path + ", flags=" + std::to_string(flags) + (canExisting ? " CanOpenExisting" : "") + (canNew ? " CanOpenNew" : "") + (trunc ? " Truncate" : "") + (app ? " Append" : "") + "), destination " + (state == 2 ? "is a FIFO; " : state == 3 ? "is a symbolic link to a regular file; " : "") + "file " + (exists ? "exists with " + std::to_string(old.size()) + " bytes" : "does not exist");
 			if (fifoReader >= 0) { char sink[4096]; while (read(fifoReader, sink, sizeof sink) > 0) {} close(fifoReader); }
